@@ -73,6 +73,21 @@ def sessionLog (cfg : StreamCfg) : Link → List (ReqInfo × List Nat × Wire ×
       (idx, r) :: sessionLog cfg l' rest
     | _ => []
 
+def sessionLogL (cfg : StreamCfg) : Link → List ((ReqInfo × List Nat × Wire × DecLog) × Leave) → List (Nat × Result)
+  | _, [] => []
+  | l, ((req, σ, w, dl), lv) :: rest =>
+    match sessionL (replayDecoder dl) cfg l [(req, σ, w, lv)] with
+    | [(idx, r)] => (idx, r) :: sessionLogL cfg (linkAfter idx lv r w) rest
+    | _ => []
+
+def leave? : String → Option Leave
+  | "D" => some .downloaded | "H" => some .headerOnly | "R" => some .raised | "A" => some .aborted
+  | _ => none
+
+def chunk7 : List String → List (List String)
+  | a :: b :: c :: d :: e :: f :: g :: t => [a, b, c, d, e, f, g] :: chunk7 t
+  | _ => []
+
 def chunk6 : List String → List (List String)
   | a :: b :: c :: d :: e :: f :: t => [a, b, c, d, e, f] :: chunk6 t
   | _ => []
@@ -111,6 +126,16 @@ def handle : List String → String
     match (chunk6 rest).mapM decExchange? with
     | some xs =>
       let out := sessionLog { keepAlive := ka == "T", ignoreLength := il == "T" }
+        { index := 0, alive := false, leftover := [], peerEof := false } xs
+      if out.isEmpty then "~" else " || ".intercalate (out.map (fun (i, r) => toString i ++ ":" ++ encResult r))
+    | none => "bad-arg"
+  | "sessionl" :: ka :: il :: rest =>
+    match (chunk7 rest).mapM (fun t => do
+        let x ← decExchange? (t.take 6)
+        let lv ← leave? (t.getD 6 "")
+        pure (x, lv)) with
+    | some xs =>
+      let out := sessionLogL { keepAlive := ka == "T", ignoreLength := il == "T" }
         { index := 0, alive := false, leftover := [], peerEof := false } xs
       if out.isEmpty then "~" else " || ".intercalate (out.map (fun (i, r) => toString i ++ ":" ++ encResult r))
     | none => "bad-arg"
